@@ -68,8 +68,12 @@ def main():
             rcs, outs = sh("go test -vet=off -count=1 ./...", wt)
             res["suite_with_change"] = "pass" if rcs == 0 else "FAIL " + outs[-500:]
             res["confirmed"] = (rc0 == 0 and rcb == 0 and rc1 != 0 and rcs == 0)
-        res["what_it_needs"] = ""
         notes = os.path.join(src, "NOTES.md")
+        res["what_it_needs"] = ""
+        if os.path.exists(notes):
+            sys.path.insert(0, os.path.dirname(os.path.abspath(__file__)))
+            from fill_needs import needs
+            res["what_it_needs"] = needs(open(notes).read())
         res["confirmed_at"] = datetime.datetime.utcnow().isoformat() + "Z"
         res["repo_head"] = subprocess.run("git -C /repo rev-parse --short HEAD", shell=True, capture_output=True, text=True).stdout.strip()
         res["ran"] = ["demo on unchanged worktree", "git apply patch.diff", "go build ./...", "demo with change", "go test -vet=off -count=1 ./... with change (demo removed)"]
